@@ -196,6 +196,11 @@ class Evaluator:
                         refl = 'apply'
                 if refl:
                     fv = self.ev(m['obj'])
+                    if not (isinstance(fv, tuple) and fv and fv[0] == 'static'):
+                        # reading `.call` / `.apply` off the function value is the point at which a missing (nullish) function
+                        # raises its TypeError: before the arguments are evaluated.  (A plain call checks callability at the call
+                        # itself, i.e. after the arguments; e_Call drops the marker when nothing happens in between.)
+                        self.event('reflect-get', fv)
                     return fv, None, refl
             sp = self.static_proto_path(callee)
             if sp is not None:
@@ -241,7 +246,10 @@ class Evaluator:
             argv = self.args(p['args'])
             return self.event('super', *argv)
         fv, thisv, refl = self.call_parts(c['_0'])
+        mark = len(self.trace) - 1 if (refl and self.trace and self.trace[-1][0] == 'reflect-get') else None
         argv = self.args(p['args'])
+        if mark is not None and len(self.trace) - 1 == mark:
+            self.trace.pop()        # no effect between reading `.call` and the call: indistinguishable from a plain call
         return self.do_call(fv, thisv, refl, argv)
 
     def e_New(self, p, e):
